@@ -41,7 +41,7 @@ impl<T> serde::Serialize for SerializablePhantom<T> {
     where
         S: serde::Serializer,
     {
-        serializer.serialize_unit_struct(std::any::type_name::<T>())
+        serializer.serialize_str(std::any::type_name::<T>())
     }
 }
 
